@@ -34,6 +34,7 @@ type world struct {
 	nonce    int
 	stats    map[string]int
 	lastDup  string
+	faults   bool // this history also meets storage write errors at a block's confirmation
 }
 
 func (w *world) fakeTx(rng *rand.Rand) *pb.Transaction {
@@ -226,6 +227,21 @@ func (w *world) step(rng *rand.Rand) (string, []problem) {
 			w.stats["tie"]++
 		}
 		return "confirm", ps
+	case r < 53 && w.faults: // a valid block whose confirmation batch cannot be written
+		p := pickParent()
+		b := w.makeBlock(rng, p, "")
+		delete(w.blocks, string(b.Blockid))
+		w.n.World.ArmFail(1)
+		st := w.n.Confirm(b)
+		w.n.World.ArmFail(0)
+		w.stats["write-fault-at-confirm"]++
+		w.logf("confirm-with-write-error(%s<-%s)=%v", short(string(b.Blockid)), short(p), st.Succ)
+		if st.Succ {
+			ps = append(ps, problem{"write-error-swallowed", "ConfirmBlock reported success although its storage write failed"})
+		}
+		// the refused block is not part of the model: the audit after this op demands that meta,
+		// tip, links, height index and every other query answer as before
+		return "write-fault", ps
 	case r < 58: // generate now, offer later (possibly before its parent)
 		p := pickParent()
 		b := w.makeBlock(rng, p, "")
@@ -604,7 +620,7 @@ func runCase(r *ev.Run, c int, nops int) {
 		return
 	}
 	defer n.Drop()
-	w = &world{n: n, blocks: map[string]*pb.InternalBlock{}, gone: map[string]bool{}, repeated: map[string]bool{}, txs: map[string]*pb.Transaction{}, ts: 1000, stats: map[string]int{}}
+	w = &world{n: n, blocks: map[string]*pb.InternalBlock{}, gone: map[string]bool{}, repeated: map[string]bool{}, txs: map[string]*pb.Transaction{}, ts: 1000, stats: map[string]int{}, faults: c%3 == 1}
 	rb, _ := n.Ledger.QueryBlock(n.Root())
 	w.m = refmodel.NewTreeModel(string(n.Root()), txids(rb))
 	for _, x := range rb.Transactions {
@@ -667,7 +683,7 @@ func main() {
 	r := ev.Start("C04", "exploration",
 		"random ledger histories: grow at tip / on the main chain / anywhere (0-3 txs per block, a quarter of them copies of transactions stored on other branches), "+
 			"hold-and-offer-later (arrival order != generation order, unknown parent), duplicates of tip / trunk / side blocks, second genesis, two coinbases, "+
-			"a transaction repeated on the block's own chain, truncation to main-chain blocks followed by further growth; after every op every query of the statement is "+
+			"a transaction repeated on the block's own chain, truncation to main-chain blocks followed by further growth, in every third history valid blocks whose confirmation batch cannot be written (storage fault: refused, nothing may change); after every op every query of the statement is "+
 			"compared with a tree model (live instance, every 6th op also a reopened twin); case = one history, distinct by op-kind sequence, non-trivial = had a trunk switch and a truncation")
 	defer sn.CleanupScratch()
 	n := r.N(120, 2500)
@@ -683,6 +699,7 @@ func main() {
 	}
 	r.Floor("audits", 2000)
 	r.Floor("switch", 30)
+	r.Floor("write-fault-at-confirm", 20)
 	r.Floor("tie", 10)
 	r.Floor("truncate", 30)
 	r.Floor("duplicate", 30)
